@@ -36,7 +36,7 @@ TraceInit ==
     /\ where = [p \in Payloads |-> NoWhere]
     /\ xobs = [x \in DOMAIN Execs |-> NoX]
     /\ segopen = [f \in {"asyncio", "trio", "threading"} |-> 0]
-    /\ marks = [aborted |-> FALSE, straystart |-> FALSE, loopexited |-> FALSE, earlyfail |-> FALSE, closingonfail |-> FALSE, quiescent |-> FALSE, timeouts |-> 0, blocked |-> FALSE, coroafterblock |-> 0, failedatq |-> FALSE, lostatq |-> FALSE,
+    /\ marks = [aborted |-> FALSE, straystart |-> FALSE, loopexited |-> FALSE, earlyfail |-> FALSE, closingonfail |-> FALSE, answered |-> {}, quiescent |-> FALSE, timeouts |-> 0, blocked |-> FALSE, coroafterblock |-> 0, failedatq |-> FALSE, lostatq |-> FALSE,
                 stuckatq |-> FALSE, exfail |-> FALSE, execstuck |-> FALSE, adoptstuck |-> FALSE, shutstuck |-> FALSE, restartfail |-> FALSE, stall |-> FALSE]
 
 Step_ == l <= Len(Tr.events) /\ l' = l + 1 /\ UNCHANGED tid
@@ -84,7 +84,11 @@ TEnd == /\ Ev.e = "End"
         /\ UNCHANGED <<phase, guard, starts, cleanleft, adoptret, sigint, shut, result, xst, where, xobs, segopen>>
         \* a failure that happens while the service loop is still running - even if shutdown()
         \* has already been asked for - meets runners that are all still open
-        /\ marks' = [marks EXCEPT !.earlyfail = @ \/ (Ev.how \in {"val", "exc", "base"} /\ phase[1] = "running" /\ ~marks.loopexited /\ ~sigint)]
+        /\ marks' = [marks EXCEPT !.earlyfail = @ \/ (Ev.how \in {"val", "exc", "base"} /\ phase[1] = "running" /\ ~marks.loopexited /\ ~sigint),
+                                  \* (payloads that end in ANSWER to their cancellation: an interrupt
+                                  \*  raised that way is a consequence of what caused the cancellation,
+                                  \*  not a stop request of its own)
+                                  !.answered = IF endhow[Ev.p] = "cancelled" THEN @ \cup {Ev.p} ELSE @]
         /\ nc' = (nc \/ ~(End(Ev.p, Ev.how) \/ AnswerCancel(Ev.p, Ev.how)))
 TCancelled == /\ Ev.e = "Cancelled"
               /\ pst' = [pst EXCEPT ![Ev.p] = IF cleanleft[Ev.p] = 0 THEN "done" ELSE "cancelled"]
@@ -238,7 +242,7 @@ FailStopObserved == ~marks.failedatq
 \* C01 while a stop has been requested: a failure that met open runners (before the service loop
 \* left) ends the run by raising, the shutdown() in progress notwithstanding
 FailStopWhileStopping ==
-    /\ (marks.earlyfail /\ phase[1] = "ended" /\ ~sigint /\ Kbd = {}) => result[1].kind # "returned"
+    /\ (marks.earlyfail /\ phase[1] = "ended" /\ ~sigint /\ Kbd \subseteq marks.answered) => result[1].kind # "returned"
     \* ... and an interrupt (^C, a payload raising KeyboardInterrupt) that arrives while the runtime
     \* is already closing because of a failure does not make the failure pass silently.  (A
     \* failure the runtime has not noticed yet - trio reports one only when its payloads have
